@@ -143,6 +143,25 @@ def forwardG {β : Type} (T : Tables) (fuel : Nat) (maxLen : Nat) (m : Msg β) (
     Except PyErr (Msg β) :=
   remarshalG T fuel maxLen { m with attrs := setAttr m.attrs .sender (.str .plain sender) } endian m.rawBody
 
+/-! ### executable form of the hypotheses of `forward_parse` (Properties/C03.lean): the driver certifies every forwarded
+case with it, closed examples evaluate it; `fwdOKB_sound` (Proofs/Msg/Forward.lean) turns it into the hypotheses. -/
+
+/-- `AttrFwd` as a Boolean: None; an int for `reply_serial` / `unix_fds`; a plain str for the other attributes. -/
+def attrFwdB (a : Attr) (v : PyVal) : Bool :=
+  match v with
+  | .none => true
+  | .int _ _ => a == .replySerial || a == .unixFds
+  | .str .plain _ => a != .replySerial && a != .unixFds
+  | _ => false
+
+/-- The hypotheses `hshape` and `hin` of `forward_parse`, and the NUL condition, as a Boolean. -/
+def fwdOKB {β : Type} (T : Tables) (m : Msg β) : Bool :=
+  Attr.all.all (fun a => attrFwdB a (m.attrs a) &&
+    (a == .sender || isNone (m.attrs a) || (T.headerAttrs m.cls).any (fun ent => ent.1 == a))) &&
+  (match m.attrs .signature with
+   | .str _ s => !s.contains nul
+   | _ => true)
+
 /-- "Outside the fragment of Msg/HeaderCode.lean": the specialised codec answered `PyErr.other`. -/
 def outside {α : Type} : Except PyErr α → Bool
   | .error .other => true
